@@ -133,6 +133,18 @@ func (b *Builder) Build(v *jv.V) any {
 	return rv.Interface()
 }
 
+// BuildAs builds v as a value of the static type t; ok is false when t cannot hold v.
+func (b *Builder) BuildAs(v *jv.V, t reflect.Type) (x any, ok bool) {
+	if !Fits(v, t) {
+		return nil, false
+	}
+	rv := b.fill(v, t, 0)
+	if !rv.IsValid() {
+		return nil, false
+	}
+	return rv.Interface(), true
+}
+
 // numFits reports whether number v is exactly representable in numeric type t.
 func (b *Builder) numFits(v *jv.V, t reflect.Type) bool {
 	if b.O.LooseFloat32 && t.Kind() == reflect.Float32 && v.K == jv.Num {
